@@ -181,8 +181,11 @@ class SmtpRelayClient(RelayPoolClient):
     @current_command(b'MAIL')
     def _mailfrom(self, sender):
         assert self.client is not None
-        with Timeout(self.command_timeout):
-            mailfrom = self.client.mailfrom(sender, auth=False)
+        try:
+            with Timeout(self.command_timeout):
+                mailfrom = self.client.mailfrom(sender, auth=False)
+        except UnicodeError:
+            raise SmtpRelayError.factory(self._unsendable(b'MAIL'))
         if mailfrom and mailfrom.is_error():
             raise SmtpRelayError.factory(mailfrom)
         return mailfrom
@@ -190,8 +193,16 @@ class SmtpRelayClient(RelayPoolClient):
     @current_command(b'RCPT')
     def _rcptto(self, rcpt):
         assert self.client is not None
-        with Timeout(self.command_timeout):
-            return self.client.rcptto(rcpt)
+        try:
+            with Timeout(self.command_timeout):
+                return self.client.rcptto(rcpt)
+        except UnicodeError:
+            # Nothing was sent: the recipient counts as refused.
+            return self._unsendable(b'RCPT')
+
+    def _unsendable(self, command):
+        return Reply('553', '5.6.7 Address needs SMTPUTF8, which the server '
+                     'does not offer', command=command, address=self.address)
 
     @current_command(b'DATA')
     def _data(self):
